@@ -98,6 +98,9 @@ def oracle_recovery(rng):
         for k in range(n - 1):
             x[k + 1] = A @ x[k] + B @ u[k]
         blocks.append((l, np.hstack((x, u))))
+    # exact recovery does not depend on the physical units of the data: states and inputs scaled alike
+    scale = rng.choice([1.0, 1.0, 1e-12, 1e-6, 1e6])
+    blocks = [(l, Xe * scale) for l, Xe in blocks]
     X = st.ref_combine(blocks, ep) if ep else blocks[0][1]
     layout = 'contiguous'
     if ep and len(blocks) > 1 and rng.random() < 0.6:
@@ -111,12 +114,12 @@ def oracle_recovery(rng):
     regs = [('Edmd', pykoop.Edmd(alpha=0)), ('EdmdMeta', pykoop.EdmdMeta()), ('Dmdc', pykoop.Dmdc())]
     if nu == 0:
         regs.append(('Dmd', pykoop.Dmd()))
-    case = {'A': A.tolist(), 'B': B.tolist(), 'X': X.tolist(), 'ep': ep, 'nu': nu, 'layout': layout}
+    case = {'A': A.tolist(), 'B': B.tolist(), 'X': X.tolist(), 'ep': ep, 'nu': nu, 'layout': layout, 'scale': scale}
     for name, r in regs:
         r.fit(X, n_inputs=nu, episode_feature=ep)
         err = np.max(np.abs(r.coef_.T - K))
         if err > 1e-7 * max(1.0, np.max(np.abs(K))) * np.linalg.cond(Psi):
-            return f'{name} does not recover [A B] from noise-free data ({layout} episodes; max error {err:.3g}, cond(Psi)={np.linalg.cond(Psi):.3g})', case
+            return f'{name} does not recover [A B] from noise-free data ({layout} episodes, data scale {scale:g}; max error {err:.3g}, cond(Psi)={np.linalg.cond(Psi):.3g})', case
     # pipeline fit = regression on the pipeline's own lifted data
     kp = pykoop.KoopmanPipeline(lifting_functions=[('pl', pykoop.PolynomialLiftingFn(order=2))], regressor=pykoop.Edmd(alpha=0.1))
     kp.fit(X, n_inputs=nu, episode_feature=ep)
